@@ -309,6 +309,7 @@ class Ctx:
         self.known = Known()
         self.violations = []      # (what, replay_obj)
         self.known_hits = {}      # dev -> (what, count)
+        self.drifts = []          # (area, what, replay_obj): beyond the property, never gates
         self.cov = {"evaluations": 0, "distinct_nontrivial": 0, "rule": "", "samples": [],
                     "states": 0, "transitions": 0, "traces_validated_against_impl": 0,
                     "exhaustive": False, "tlc_runs": [], "parts": {}}
@@ -342,6 +343,14 @@ class Ctx:
         self.violations.append((what, replay_obj))
         return True
 
+    def drift(self, area, what, replay_obj=None):
+        """Report a disagreement between the code and a part of the specification that goes BEYOND what this
+        property states (spec growth: CORS, monitor events, the server application, ...). It is printed as a
+        SPEC-DRIFT line, kept with a replay file and counted in the evidence, but it is not a violation of the
+        property and does not change the exit code."""
+        self.drifts.append((area, what, replay_obj))
+        return False
+
     def require_tlc_ok(self, name, r):
         if r.violation is not None:
             self.violations.append(("TLC %s: %s %s violated on the model" % (name, r.violation, r.violated_name or ""),
@@ -370,6 +379,14 @@ class Ctx:
             print("VIOLATION property=%s replay=%s" % (self.prop, path), flush=True)
             log("  -> " + what[:600])
             rc = 1
+        for i, (area, what, obj) in enumerate(self.drifts[:20]):
+            path = os.path.join(REPLAYS, "%s-%s-drift-%d.json" % (self.prop, self.tier, i))
+            with open(path, "w") as f:
+                json.dump({"property": self.prop, "beyond_property": True, "area": area, "what": what, "case": obj}, f, indent=1, default=str)
+            print("SPEC-DRIFT: area=%s (beyond what %s states; does not gate) %s replay=%s" % (area, self.prop, what[:300], path), flush=True)
+        if self.drifts:
+            self.cov["parts"]["spec growth drift (beyond the property, not gating)"] = {
+                "count": len(self.drifts), "first": [{"area": a, "what": w[:400]} for a, w, _ in self.drifts[:5]]}
         ev = {
             "property_id": self.prop,
             "tier": self.tier,
@@ -387,6 +404,43 @@ class Ctx:
             self.prop, self.tier, self.cov["evaluations"], self.cov["distinct_nontrivial"], self.cov["states"],
             self.cov["traces_validated_against_impl"], len(self.violations), list(self.known_hits), wall))
         return rc
+
+
+class GrowthCtx:
+    """Proxy handed to a spec-growth part wired into a property's check (CORS in C01, the server application in
+    C15, ...): everything is forwarded to the real Ctx (coverage counters, add_tlc, add_part, samples), except that a
+    mismatch found by the part is reported as drift (see Ctx.drift), never as a violation of the property."""
+
+    def __init__(self, ctx, area):
+        object.__setattr__(self, "_ctx", ctx)
+        object.__setattr__(self, "_area", area)
+
+    def __getattr__(self, k):
+        if k == "violations":   # "is this part clean so far?" (gates the part's own self-tests)
+            return list(self._ctx.violations) + [(w, o) for a, w, o in self._ctx.drifts if a == self._area]
+        return getattr(self._ctx, k)
+
+    def __setattr__(self, k, v):
+        setattr(self._ctx, k, v)
+
+    def violation(self, what, replay_obj, dev=None):
+        return self._ctx.drift(self._area, what, replay_obj)
+
+    def require_tlc_ok(self, name, r):
+        if r.violation is not None:
+            self._ctx.drift(self._area, "TLC %s: %s %s violated on the model" % (name, r.violation, r.violated_name or ""),
+                            {"kind": "tlc", "run": name, "violation": r.violation, "name": r.violated_name, "trace": r.trace[:400]})
+
+
+def run_growth(ctx, area, fn, *args):
+    """Runs a growth part; neither a mismatch nor trouble inside it can fail the property's check."""
+    try:
+        return fn(GrowthCtx(ctx, area), *args)
+    except ToolError as e:
+        ctx.drift(area, "growth part did not complete (tool trouble): %s" % str(e)[:500], None)
+    except Exception as e:   # noqa
+        import traceback
+        ctx.drift(area, "growth part did not complete: %s" % traceback.format_exc()[-800:], None)
 
 
 def write_lines(path, objs):
